@@ -15,17 +15,19 @@ TODAY = dt.date(2022, 3, 4)
 
 CFG = ('[bumpver]\ncurrent_version = "1.2.3"\nversion_pattern = "MAJOR.MINOR.PATCH"\ncommit = true\ntag = true\npush = false\n\n'
        '[bumpver.file_patterns]\n"bumpver.toml" = [\'current_version = "{version}"\']\n"a.txt" = ["ver {version}"]\n'
-       '"sub/b.txt" = ["pep {pep440_version}"]\n')
+       '"sub/b.txt" = ["pep {pep440_version}"]\n"docs/series.txt" = ["series MAJOR.MINOR docs"]\n"rel notes/what is new.txt" = ["now {version}"]\n')
 FILES = {"bumpver.toml": CFG.encode(), "a.txt": b"head\nver 1.2.3\ntail\n", "sub/b.txt": b"pep 1.2.3\nmore\n",
-         "other.txt": b"unrelated\nline\n", "docs/x.txt": b"docs\n"}
-PATTERN_FILES = ["a.txt", "sub/b.txt", "bumpver.toml"]
+         "other.txt": b"unrelated\nline\n", "docs/x.txt": b"docs\n", "docs/series.txt": b"intro\nseries 1.2 docs\nend\n", "rel notes/what is new.txt": b"now 1.2.3\n"}
+# docs/series.txt carries a pattern whose rendering does not change with a --patch bump: still a pattern file
+# "rel notes/what is new.txt" is printed C-quoted by `git status --porcelain`
+PATTERN_FILES = ["a.txt", "sub/b.txt", "bumpver.toml", "docs/series.txt", "rel notes/what is new.txt"]
 UNRELATED = ["other.txt", "docs/x.txt"]
 
 
 def cases_matrix():
     out = []
     for st in STATUSES:
-        for target in ("pattern", "unrelated"):
+        for target in ("pattern", "pattern_unchanged", "pattern_quoted_name", "unrelated"):
             for allow in (False, True):
                 out.append({"dirt": [{"status": st, "target": target}], "allow": allow})
     return out
@@ -81,7 +83,8 @@ class Dirty:
         if index < 4 * len(self.matrix):
             case = dict(self.matrix[index % len(self.matrix)])
             index4 = index // len(self.matrix)
-            case["dirt"] = [dict(x, path=("a.txt" if x["target"] == "pattern" else "other.txt")) for x in case["dirt"]]
+            case["dirt"] = [dict(x, path={"pattern": "a.txt", "pattern_unchanged": "docs/series.txt", "pattern_quoted_name": "rel notes/what is new.txt"}.get(x["target"], "other.txt"),
+                                 target=("pattern" if x["target"].startswith("pattern") else "unrelated")) for x in case["dirt"]]
             # flags that have nothing to do with the dirty check must not influence it
             case["extra"] = [[], ["--ignore-vcs-tag"], ["--tag-scope", "branch"], ["--pin-increments"]][index4]
         else:
@@ -126,6 +129,8 @@ class Dirty:
             want = EXPECT_XY[x["status"]]
             def names(line):
                 shown = line[3:].split(" -> ")[-1].strip('"')
+                if "/" in shown and shown.endswith("/") is False and x["path"].endswith(shown.split("/")[-1]) and " " in x["path"]:
+                    shown = x["path"] if shown.replace('"', "") == x["path"] else shown
                 return shown == x["path"] or (shown.endswith("/") and x["path"].startswith(shown))  # `?? dir/`
 
             if not any(line[:2] == want and names(line) for line in porcelain.splitlines()):
@@ -174,5 +179,5 @@ class Dirty:
         swept = [p for p in committed if p in unstaged_unrelated]
         if swept:
             ctx.violation("C11", "unrelated_change_swept_in", facts, "bump commit contains %s: %s" % (swept, detail))
-        if not set(PATTERN_FILES) <= set(committed):
+        if not (set(PATTERN_FILES) - {"docs/series.txt"}) <= set(committed):
             ctx.violation("C11", "bump_commit_incomplete", facts, "bump commit %s lacks configured files: %s" % (committed, detail))
